@@ -54,9 +54,9 @@ Definition sx_vtt_stamp (x : sx) : option vtt_stamp :=
   end.
 Definition sx_vtt_cue (x : sx) : option vtt_cue :=
   match x with
-  | SL [i; t0; t1; st; ls; g] =>
-      match sx_opt sx_str i, sx_vtt_stamp t0, sx_vtt_stamp t1, sx_opt sx_str st, sx_strs ls, sx_nat g with
-      | Some i, Some t0, Some t1, Some st, Some ls, Some g => Some (mkVttCue i t0 t1 st ls g)
+  | SL [pre; t0; t1; SS w1; SS w2; st; ls; g] =>
+      match sx_strs pre, sx_vtt_stamp t0, sx_vtt_stamp t1, sx_opt sx_str st, sx_strs ls, sx_nat g with
+      | Some pre, Some t0, Some t1, Some st, Some ls, Some g => Some (mkVttCue pre t0 t1 w1 w2 st ls g)
       | _, _, _, _, _, _ => None
       end
   | _ => None
@@ -170,7 +170,8 @@ Definition req_dfxp (arg : sx) : sx :=
                      SL [of_ostr (fst (fst a)); of_ostr (snd (fst a)); of_ostr (snd a)]) attrs;
           of_result of_pairs (dfxp_div_times attrs);
           of_pairs (map dfxp_p_expected ps);
-          of_bool (forallb dfxp_p_dom ps)]
+          of_bool (forallb dfxp_p_dom ps);
+          of_pairs (map dfxp_p_expected_alt ps)]
   | None => bad
   end.
 
@@ -194,6 +195,17 @@ Definition req_ok (arg : sx) : sx :=
       match sx_pairs e, sx_result sx_pairs o with
       | Some e, Some o => of_bool (ok_times e o)
       | _, _ => bad
+      end
+  | _ => bad
+  end.
+
+(* 116: [expected, expected under the other reading, obs] *)
+Definition req_ok_alt (arg : sx) : sx :=
+  match arg with
+  | SL [e1; e2; o] =>
+      match sx_pairs e1, sx_pairs e2, sx_result sx_pairs o with
+      | Some e1, Some e2, Some o => of_bool (ok_times_alt e1 e2 o)
+      | _, _, _ => bad
       end
   | _ => bad
   end.
@@ -247,12 +259,13 @@ Definition sx_ap (x : sx) : option ap :=
   | SL [SI 1; a] => match sx_listof sx_attr a with Some a => Some (APBlank a) | None => None end
   | _ => None
   end.
-Definition sx_adiv (x : sx) : option (option str * list ap) :=
+Definition sx_chain := sx_listof (sx_opt sx_str).
+Definition sx_docp (x : sx) : option (option (list (option str)) * ap) :=
   match x with
-  | SL [l; ps] => match sx_opt sx_str l, sx_listof sx_ap ps with
-                  | Some l, Some ps => Some (l, ps)
-                  | _, _ => None
-                  end
+  | SL [c; p] => match sx_opt sx_chain c, sx_ap p with
+                 | Some c, Some p => Some (c, p)
+                 | _, _ => None
+                 end
   | _ => None
   end.
 Definition of_dict (d : list (str * list (Z * Z))) : sx :=
@@ -260,17 +273,20 @@ Definition of_dict (d : list (str * list (Z * Z))) : sx :=
 Definition of_xp (p : xp) : sx :=
   SL [of_list (fun nv : str * str => SL [SS (fst nv); SS (snd nv)]) (xp_attrs p); of_bool (xp_text p)].
 
-Definition req_dfxp_tree (arg : sx) : sx :=
+(* 114: [tt lang, div chains, paragraphs (chain option, ap)] ->
+        [rendered paragraphs, model, expected, expected under the other begin+dur reading, in domain] *)
+Definition req_dfxp_doc (arg : sx) : sx :=
   match arg with
-  | SL [tl; dvs] =>
-      match sx_opt sx_str tl, sx_listof sx_adiv dvs with
-      | Some tlang, Some dvs =>
-          let rendered := map (fun dv : option str * list ap => (fst dv, map ap_render (snd dv))) dvs in
-          SL [of_list (fun dv : option str * list xp => SL [of_ostr (fst dv); of_list of_xp (snd dv)]) rendered;
-              of_result of_dict (dfxp_read_tree default_language_code tlang rendered);
-              of_result of_dict (set_result (tree_expected default_language_code tlang dvs));
-              of_bool (tree_dom default_language_code tlang dvs)]
-      | _, _ => bad
+  | SL [tl; dvs; ps] =>
+      match sx_opt sx_str tl, sx_listof sx_chain dvs, sx_listof sx_docp ps with
+      | Some tlang, Some dvs, Some ps =>
+          let rendered := map (fun cp : option (list (option str)) * ap => (fst cp, ap_render (snd cp))) ps in
+          SL [of_list (fun cp : option (list (option str)) * xp => of_xp (snd cp)) rendered;
+              of_result of_dict (dfxp_read_doc default_language_code tlang dvs rendered);
+              of_result of_dict (set_result (doc_expected default_language_code tlang dvs ps));
+              of_result of_dict (set_result (doc_expected_alt default_language_code tlang dvs ps));
+              of_bool (doc_dom dvs ps)]
+      | _, _, _ => bad
       end
   | _ => bad
   end.
@@ -317,7 +333,8 @@ Definition dispatch (code : Z) (arg : sx) : option sx :=
   | 111 => Some (req_raw_dfxp arg)
   | 112 => Some (req_raw_sami arg)
   | 113 => Some (req_raw_vtt arg)
-  | 114 => Some (req_dfxp_tree arg)
+  | 114 => Some (req_dfxp_doc arg)
   | 115 => Some (req_sami_tree arg)
+  | 116 => Some (req_ok_alt arg)
   | _ => None
   end.
